@@ -22,6 +22,7 @@ RULE = (
     "fingerprints of the template and of every input frame (values, dtypes, index, column order) are equal before and after; every backtest's full history equals the history of a "
     "lone backtest of a fresh template (RNG seeded identically before each run) whatever the order and siblings; a second run() changes nothing and calls no algo. "
     "hashseed: the same spec executed in fresh interpreter processes with PYTHONHASHSEED 0, 1, 2 and random gives bit-identical histories. "
+    "benchmark: benchmark_random(backtest, template, nsim) builds nsim backtests from the template it is handed: template and data fingerprints unchanged, nsim distinct random results. "
     "non-trivial = at least two backtests from one template with a stateful or RNG algo (template) / a declared-children or RNG spec across >= 3 hash seeds (hashseed). distinct = distinct spec hashes."
 )
 ASSUMPTIONS = ["random and numpy.random are seeded from the spec immediately before each run (the statement's 'with the random seeds fixed')"]
@@ -288,10 +289,51 @@ def hashseed_spec(draw):
     return spec
 
 
-SUBS = {"template": case_template, "hashseed": case_hashseed}
-STRATS = {"template": template_spec, "hashseed": hashseed_spec}
+# ---- benchmark_random builds many backtests from one template --------------------------------------
+@st.composite
+def benchmark_spec(draw):
+    ds = draw(gen.dates(6, 14, kinds=("bday", "daily")))
+    n = len(ds)
+    nt = draw(st.integers(2, 4))
+    tickers = gen.TICKERS[:nt]
+    pr = draw(gen.prices(n, tickers, n_clean=nt))
+    rnd = [draw(st.sampled_from([["RunDaily", {}], ["RunWeekly", {}], ["RunOnce", {}]])), ["SelectAll", {}], ["SelectRandomly", {"n": draw(st.integers(1, nt))}], draw(st.sampled_from([["WeighRandomly", {}], ["WeighEqually", {}]])), ["Rebalance", {}]]
+    base = [["RunOnce", {}], ["SelectAll", {}], ["WeighEqually", {}], ["Rebalance", {}]]
+    return {"dates": ds, "prices": pr, "rng_seed": draw(st.integers(0, 10**6)), "random_algos": rnd, "base_algos": base, "nsim": draw(st.integers(1, 4)), "template_name": draw(st.sampled_from(["rnd", "random_0", "my strategy"])), "declare": draw(st.booleans())}
+
+
+def case_benchmark(ctx, spec):
+    """benchmark_random(backtest, template, nsim) constructs and runs nsim backtests from the template it is given"""
+    bt = ctx.bt
+    frames = {}
+    data = interp.mk_data(spec)
+    tick = sorted(spec["prices"])
+    template = bt.core.Strategy(spec["template_name"], [interp.mk_algo(bt, a, spec, frames) for a in spec["random_algos"]], children=list(tick) if spec["declare"] else None)
+    base_s = bt.core.Strategy("base", [interp.mk_algo(bt, a, spec, frames) for a in spec["base_algos"]])
+    base_bt = bt.Backtest(base_s, data, progress_bar=False)
+    fp_t0 = fp(template)
+    fp_d0 = fp(data)
+    interp.seed_rngs(spec)
+    try:
+        with contextlib.redirect_stdout(io.StringIO()), contextlib.redirect_stderr(io.StringIO()):
+            res = bt.backtest.benchmark_random(base_bt, template, nsim=spec["nsim"])
+    except Exception as e:
+        raise Discard("benchmark_random raised (C10's business): %s" % type(e).__name__)
+    if fp(template) != fp_t0:
+        raise Violation("benchmark_random modified the strategy template it was given (name %r -> %r)" % (spec["template_name"], template.name), signature="c11:template-mutated:benchmark_random")
+    if fp(data) != fp_d0:
+        raise Violation("benchmark_random modified the input data", signature="c11:data-mutated:benchmark_random")
+    names = [k for k in res.backtests if k != base_bt.name]
+    if len(names) != spec["nsim"]:
+        raise Violation("benchmark_random(nsim=%d) reports %d random backtests: %s" % (spec["nsim"], len(names), names), signature="c11:benchmark-count")
+    return {"nontrivial": spec["nsim"] >= 2, "labels": ["nsim=%d" % spec["nsim"]]}
+
+
+SUBS = {"template": case_template, "hashseed": case_hashseed, "benchmark": case_benchmark}
+STRATS = {"template": template_spec, "hashseed": hashseed_spec, "benchmark": benchmark_spec}
 
 
 def shard(ctx):
     run_sub(ctx, "template", template_spec(), lambda s: case_template(ctx, s), ctx.n(640, 8000))
     run_sub(ctx, "hashseed", hashseed_spec(), lambda s: case_hashseed(ctx, s), ctx.n(32, 400))
+    run_sub(ctx, "benchmark", benchmark_spec(), lambda s: case_benchmark(ctx, s), ctx.n(160, 2000))
